@@ -278,8 +278,10 @@ def run(run):
             run.violation("unprojecting a probe point failed", reqs[P * k: P * k + 3], str(rs[:3]))
             continue
         first[k] = measure(rs, tri)
-        if first[k][2] > 2e-5:
+        if 2e-5 < first[k][2] <= 1e-3:
             again.append(k)      # close to the limit: the 12-point outline may be too coarse; measure again with 60 points per edge
+        # (a distortion above 1e-3 cannot come from the coarse outline and is NOT re-measured: the second measurement runs in a fresh
+        # process, where a fault that depends on the order of the calls would not show again)
         run.nontrivial.add(k)
     M2 = 60
     areq = []
